@@ -88,6 +88,7 @@ class Driver(object):
         kw = dict(hold_time=c['hold'], idle_hold_time=c['idle_hold'], connect_retry_time=c['connect_retry'])
         kw.update(sim_config or {})
         self.sim = Sim(**kw)
+        self.sim.reactor.segments = c.get('seg')      # every peer message arrives in that many TCP segments
         self.regime = regime
         self.model = Model(c['hold'], c['connect_retry'], c['idle_hold']) if model else None
         self.failures = []       # [(sig, detail)]
